@@ -137,6 +137,17 @@ def run_check(mod, tier: str, seed: int, budget_s: float | None = None, replay: 
         if not res["violations"]:
             continue
         case = res["case"]
+        if all((v.get("key") in known) for v in res["violations"]):
+            # only listed known findings in this case: report (first few) without re-execution
+            for v in res["violations"]:
+                key = v["key"]
+                seen_known[key] += 1
+                if seen_known[key] <= 3:
+                    known_lines.append(
+                        f"KNOWN-FINDING: property={pid} {key}: {known[key]['summary']} "
+                        f"[case {jhash(case)}: {v['what'][:160]}]"
+                    )
+            continue
         confirmed += 1
         if confirmed > 25:  # enough replays written; count the rest without re-execution
             for v in res["violations"]:
